@@ -31,6 +31,10 @@ def spec_grid(tier):
         dict(name="h_unkbig", params=dict(B=64, Q=2, NREADS=-1), items=[can(1), lobj(200, 100000, 32), can(2)], conts=[128]),
         # object size below the base header
         dict(name="h_tiny", params=dict(B=64, Q=2, NREADS=-1), items=[can(1), lobj(1, 3, 48), can(2)], conts=[144]),
+        # zeroed header: object size AND declared header size 0, unknown type (no progress unless the session ends)
+        dict(name="h_zero", params=dict(B=64, Q=2, NREADS=-1), items=[can(1), lobj(200, 0, 48, 0x00, hsz=0), can(2)], conts=[144]),
+        # declared header size larger than the declared object size, known type
+        dict(name="h_hsz", params=dict(B=64, Q=2, NREADS=-1), items=[can(1), lobj(1, 12, 48, hsz=8), can(2)], conts=[144]),
         # a container whose deflate stream is damaged, a non-container object at container level
         dict(name="h_badz", params=dict(B=64, Q=2, NREADS=-1, METHOD=2, LEVEL=6, BADCONT=1), items=[can(1), can(2), can(3)], conts=[48, 48, 48]),
         # a stored container with more bytes than it declares
